@@ -116,7 +116,10 @@ def string_cases(st):
     for kind, text, expected, phs, shp in c01.template_cases(st):
         yield text, phs
     for extra in ("x1:Red", "sc:Red, Blue", "Red,, Blue", "(Red, (Blue)", "Label/a$b, Red", "Red/Zzq/Blue", "Duration/3 zz, Blue",
-                  "Item/Object/Zzq ext", "(Red, Red), Blue/#", "Def/Nope/3, Red", "Red , Zzqunknown , Blue"):
+                  "Item/Object/Zzq ext", "(Red, Red), Blue/#", "Def/Nope/3, Red", "Red , Zzqunknown , Blue",
+                  # characters whose case folding is longer than themselves must not shift the offsets
+                  "Item/Stra\u00dfe/Red, Blue", "Item/\ufb01x/Blue", "Stra\u00dfe", "Gla\u00df/Red", "Blue, (Pre\u00df/Red)",
+                  "De\ufb01nition/Foo", "Sti\ufb00/Zzq/Red"):
         yield extra, (False, True)
 
 
